@@ -596,6 +596,30 @@ fn explore(ctx: &mut Ctx) {
         }
     }
     ctx.exhaustive_part("long slices: lengths 1..=72 x a single differing position at every index (or none), both argument orders, 14 scalar types + str (+ &[&str], &[&[u8]] up to 40)");
+    // slices / strings longer than 2^16, equal except at one position around 2^8, 2^15, 2^16 or the end (or nowhere),
+    // and one a prefix of the other cut at such a position
+    {
+        let total = 70_000usize;
+        for j in [0usize, 255, 256, 32_767, 32_768, 65_535, 65_536, 65_537, total - 1, total] {
+            let a: Vec<usize> = vec![0; total];
+            let mut b = a.clone();
+            if j < total {
+                b[j] = 1;
+            }
+            for name in ["u8", "u16", "i64", "char", "u128"] {
+                eval(ctx, case(name, "slice", a.clone(), b.clone()));
+                eval(ctx, case(name, "slice", b.clone(), a.clone()));
+            }
+            eval(ctx, case("str", "str", a.clone(), b.clone()));
+            eval(ctx, case("str", "str", b.clone(), a.clone()));
+            if j > 0 && j < total {
+                let p: Vec<usize> = vec![0; j];
+                eval(ctx, case("u8", "slice", p.clone(), a.clone()));
+                eval(ctx, case("str", "str", a.clone(), p.clone()));
+            }
+        }
+        ctx.exhaustive_part("slices / strings of 70000 elements: a single difference at positions around 2^8, 2^15, 2^16 and the end, and prefixes cut there; 5 element types + str");
+    }
     // random: longer slices over a 2-3 value alphabet
     let n = ctx.by_tier(40_000, 1_000_000);
     let strat = (0usize..14, proptest::collection::vec(0usize..3, 0..12), proptest::collection::vec(0usize..3, 0..12), any::<bool>(), any::<bool>(), 0usize..4);
